@@ -420,8 +420,15 @@ def coq_error_excerpt(log):
 
 
 def load_known():
-    p = os.path.join(VERIF, 'known_findings.json')
-    try:
-        return json.load(open(p)).get('findings', [])
-    except FileNotFoundError:
-        return []
+    """known_findings.json plus per-property fragments known_findings.d/*.json (same format)."""
+    out = []
+    paths = [os.path.join(VERIF, 'known_findings.json')]
+    d = os.path.join(VERIF, 'known_findings.d')
+    if os.path.isdir(d):
+        paths += [os.path.join(d, f) for f in sorted(os.listdir(d)) if f.endswith('.json')]
+    for p in paths:
+        try:
+            out += json.load(open(p)).get('findings', [])
+        except FileNotFoundError:
+            pass
+    return out
